@@ -27,6 +27,23 @@ func init() {
 		}
 		return encList(xs)
 	}
+	extraOps["gb.sliceref2"] = func(a []sexp) string {
+		mol := gts.DNA
+		if string(decBytes(a[0])) == "residues" {
+			mol = gts.AA
+		}
+		gbf := seqio.GenBankFields{Molecule: mol}
+		for i, x := range a[5:] {
+			gbf.References = append(gbf.References, seqio.Reference{Number: i + 100, Info: string(decBytes(x))})
+		}
+		mid := gbf.Slice(decInt(a[1]), decInt(a[2])).(seqio.GenBankFields)
+		out := mid.Slice(decInt(a[3]), decInt(a[4])).(seqio.GenBankFields)
+		xs := make([]string, len(out.References))
+		for i, r := range out.References {
+			xs[i] = fmt.Sprintf("(%d %s)", r.Number, encStr(r.Info))
+		}
+		return encList(xs)
+	}
 	extraOps["gb.refinfo"] = func(a []sexp) string {
 		locs, ok := seqio.VerifParseReferenceInfo(string(decBytes(a[0])), string(decBytes(a[1])))
 		if !ok {
@@ -41,6 +58,46 @@ func init() {
 }
 
 var refRe = regexp.MustCompile(`^\((bases|residues) (\d+ to \d+(?:; \d+ to \d+)*)\)$`)
+
+// c03WantRefs: the property's clause for a forward window [a, b) — an independent statement, not the code's:
+// every well-formed range is clipped to the window, re-based, dropped when disjoint; an info that is not a
+// base range of the record's counter word (or holds an inverted range) is kept as it is.
+func c03WantRefs(pref string, infos []string, a, b int) []string {
+	var want []string
+	for _, in := range infos {
+		m := refRe.FindStringSubmatch(in)
+		if m == nil || m[1] != pref {
+			want = append(want, in)
+			continue
+		}
+		var kept []string
+		inverted := false
+		for _, part := range strings.Split(m[2], "; ") {
+			var s, e int
+			fmt.Sscanf(part, "%d to %d", &s, &e)
+			if e <= s-1 {
+				inverted = true
+			}
+		}
+		if inverted { // not a base range: kept as it is
+			want = append(want, in)
+			continue
+		}
+		for _, part := range strings.Split(m[2], "; ") {
+			var s, e int
+			fmt.Sscanf(part, "%d to %d", &s, &e)
+			lo, hi := s-1, e // 0-based half-open
+			if lo < b && a < hi {
+				cl, ch := maxInt(lo, a)-a, minInt(hi, b)-a
+				kept = append(kept, strconv.Itoa(cl+1)+" to "+strconv.Itoa(ch))
+			}
+		}
+		if len(kept) > 0 {
+			want = append(want, fmt.Sprintf("(%s %s)", pref, strings.Join(kept, "; ")))
+		}
+	}
+	return want
+}
 
 // c03Refs: REFERENCE base ranges after Slice are clipped to the window, re-based, dropped when
 // disjoint and renumbered consecutively (independent re-statement on well-formed infos).
@@ -114,40 +171,7 @@ func c03Refs(r *Run) {
 		if !wellFormed {
 			continue
 		}
-		// independent expectation
-		var want []string
-		for _, in := range infos {
-			m := refRe.FindStringSubmatch(in)
-			if m == nil || m[1] != pref {
-				want = append(want, in)
-				continue
-			}
-			var kept []string
-			inverted := false
-			for _, part := range strings.Split(m[2], "; ") {
-				var s, e int
-				fmt.Sscanf(part, "%d to %d", &s, &e)
-				if e <= s-1 {
-					inverted = true
-				}
-			}
-			if inverted { // not a base range: kept as it is
-				want = append(want, in)
-				continue
-			}
-			for _, part := range strings.Split(m[2], "; ") {
-				var s, e int
-				fmt.Sscanf(part, "%d to %d", &s, &e)
-				lo, hi := s-1, e // 0-based half-open
-				if lo < b && a < hi {
-					cl, ch := maxInt(lo, a)-a, minInt(hi, b)-a
-					kept = append(kept, strconv.Itoa(cl+1)+" to "+strconv.Itoa(ch))
-				}
-			}
-			if len(kept) > 0 {
-				want = append(want, fmt.Sprintf("(%s %s)", pref, strings.Join(kept, "; ")))
-			}
-		}
+		want := c03WantRefs(pref, infos, a, b)
 		xs := make([]string, len(want))
 		for i, w := range want {
 			xs[i] = fmt.Sprintf("(%d %s)", i+1, encStr(w))
@@ -158,6 +182,29 @@ func c03Refs(r *Run) {
 		}
 		if t < 2 {
 			r.sample(line)
+		}
+		// a slice OF A SLICE (seeded W35-1: Slice re-based its arguments by the head of an existing Region and
+		// clipped the already re-based ranges against the wrong window): the ranges of Slice(Slice(F, a, b), c, d)
+		// are those of the window [a+c, a+d) of F
+		if b > a {
+			c := r.rng.intn(b - a)
+			d := r.rng.rangeInt(c, b-a)
+			line2 := fmt.Sprintf("gb.sliceref2 %s %d %d %d %d", encStr(pref), a, b, c, d)
+			for _, in := range infos {
+				line2 += " " + encStr(in)
+			}
+			out2 := r.op(line2)
+			r.count("slice-refs/slice-of-slice")
+			r.eval(line2, d > c && a > 0)
+			want2 := c03WantRefs(pref, c03WantRefs(pref, infos, a, b), c, d)
+			ys := make([]string, len(want2))
+			for i, w := range want2 {
+				ys[i] = fmt.Sprintf("(%d %s)", i+1, encStr(w))
+			}
+			if exp := encList(ys); out2 != exp {
+				r.fail(Failure{Oracle: "slice of a slice: REFERENCE ranges are clipped to the inner window, re-based, dropped when disjoint, renumbered 1..m", Op: line2,
+					Got: out2, Want: exp})
+			}
 		}
 	}
 }
